@@ -17,7 +17,7 @@ package codegen
 //
 //@ func (*ExpressionEmitter).emitBinary
 //@   mode bv
-//@   tags C01 C08
+//@   tags C01
 //@   at (*ModuleBuilder).AddBinaryOp assert [table] binary.Op == ir.BinaryAdd ==> arg1 == ite(scalarKind == ir.ScalarFloat, OpFAdd, OpIAdd)
 //@   at (*ModuleBuilder).AddBinaryOp assert [table] binary.Op == ir.BinarySubtract ==> arg1 == ite(scalarKind == ir.ScalarFloat, OpFSub, OpISub)
 //@   at (*ModuleBuilder).AddBinaryOp assert [table] binary.Op == ir.BinaryMultiply && scalarKind != ir.ScalarFloat ==> arg1 == OpIMul
